@@ -176,6 +176,16 @@ func (d *dataRun) hostileCase(c DataCase, out map[string]interface{}) {
 	case "hugeannounce":
 		inputs = append(inputs, announce(proto, 512<<20))
 		inputs = append(inputs, announce(proto, uint64(limit)+1))
+	case "duplen":
+		// two Content-Length headers: a large negative one, then one far above the limit (their sum is small)
+		big := 512 << 20
+		inputs = append(inputs, []byte("POST /t/call HTTP/1.1\r\nContent-Type: application/json\r\nContent-Length: -"+strconv.Itoa(big-10)+
+			"\r\nContent-Length: "+strconv.Itoa(big)+"\r\nX-Seq: 1\r\nX-Mtype: 1\r\n\r\n{\"tag\":"))
+		inputs = append(inputs, []byte("POST /t/call HTTP/1.1\r\nContent-Type: application/json\r\nContent-Length: "+strconv.Itoa(big)+
+			"\r\nContent-Length: -"+strconv.Itoa(big-10)+"\r\nX-Seq: 1\r\nX-Mtype: 1\r\n\r\n{\"tag\":"))
+	case "neglen":
+		inputs = append(inputs, []byte("POST /t/call HTTP/1.1\r\nContent-Type: application/json\r\nContent-Length: -1\r\nX-Seq: 1\r\nX-Mtype: 1\r\n\r\n{\"tag\":\"x\"}"))
+		inputs = append(inputs, []byte("POST /t/call HTTP/1.1\r\nContent-Type: application/json\r\nContent-Length: -2147483648\r\nX-Seq: 1\r\nX-Mtype: 1\r\n\r\n{\"tag\":\"x\"}"))
 	case "lenfield":
 		v := map[string]uint64{"0": 0, "1": 1, "limit-1": uint64(limit) - 1, "limit": uint64(limit), "limit+1": uint64(limit) + 1,
 			"2^31-1": 1<<31 - 1, "2^32-1": 1<<32 - 1}[c.S("lenval")]
